@@ -133,7 +133,7 @@ impl StatusState {
 
     with u.mod("service_main", uses="use crate::service_main::service_state::ServiceState;\nuse std::collections::HashMap;", auto_uses=sm):
         with u.mod("service_state", uses="use std::collections::HashMap;"):
-            u.take(ss, "ServiceState", "struct")
+            u.take(ss, "ServiceState", "struct", keep_derive=("Default",))
         u.take_fn(sm, "write_state_event", external_body=True, ret="")   # proved in unit `health`; no effect on status / StatusState
         u.take_fn(sm, "get_top_proxy_connection_summary", external_body=True)
         u.take_fn(sm, "backup_proxyagent", external_body=True, ret="")
@@ -191,21 +191,42 @@ impl StatusState {
         final(status).status@ == st_text(final(status_state_obj).abs().st),  // @C20.report_proxy_agent_aggregate_status.publishes_text_of_automaton_state
 """)
 
-        # (4) the monitor loop: per iteration at most the install report (1) and then exactly the probe (3); what it hands to
-        #     common::report_status is the text of the automaton state after the probe; it never steps the automaton itself.
+        # (4) the monitor loop: per iteration at most the install report (1) and then exactly the probe (3); it never steps the
+        #     automaton itself and never re-creates it: with h the ghost history of ALL observations since the thread started,
+        #     the automaton state is run(init_abs(), h) at every loop head, and what is handed to common::report_status is the
+        #     automaton's output for h -- so the sentences of the statement hold for the text published, for every history.
         u.take_fn(sm, "monitor_thread", ret="", extra_attrs="#[verifier::exec_allows_no_decreases_clause]",
-                  pre_body=PRE + "\nlet tracked mut w = World { agg_read: None };",
-                  loops={0: "    invariant status_state_obj.inv(),"},
+                  pre_body=PRE + "\nlet tracked mut w = World { agg_read: None };\nlet ghost mut h: Seq<bool> = Seq::empty();",
+                  loops={0: """    invariant status_state_obj.inv(),
+              status_state_obj.abs() == run(init_abs(), h),  // @C20.monitor_thread.automaton_state_is_run_of_all_observations"""},
+                  loop_attrs={0: "#[verifier::loop_isolation(false)]"},
                   ghost_calls=[("common::report_status", "all", "Ghost(status_state_obj.abs())"),
                                ("report_proxy_agent_aggregate_status", None, "Tracked(&mut w)")],
                   e9=[("tokio::time::sleep(Duration::from_secs(15)).await", None, "", "", "", "", dict(is_async=True, name="vx_e9_sleep_15s", local=True)),
                       ("ServiceState::default()", None, "", "", "ServiceState", "", dict(name="vx_e9_service_state_default", local=True))],
                   hints=[("let current_seq_no = common::get_current_seq_no", None, "before",
                           "let ghost a0 = status_state_obj.abs();"),
+                         # observation (1): the install report, recorded in h when the real call has been made
+                         ("report_proxy_agent_service_status(", None, "after", "proof { lemma_run_push(h, false); h = h.push(false); }"),
                          ("report_proxy_agent_aggregate_status(", None, "before", """proof {
             assert(status_state_obj.abs() == a0 || status_state_obj.abs() == step(a0, false));  // @C20.monitor_thread.before_the_probe_at_most_the_install_report
+            assert(status_state_obj.abs() == run(init_abs(), h));  // @C20.monitor_thread.no_step_outside_the_observing_functions
         }
         let ghost a1 = status_state_obj.abs();"""),
+                         # observation (3): the probe
+                         ("report_proxy_agent_aggregate_status(", None, "after", """proof {
+            lemma_run_push(h, read_ok(w, proxyagent_file_version_in_extension@)); h = h.push(read_ok(w, proxyagent_file_version_in_extension@));
+        }"""),
                          ("common::report_status(", None, "before", """proof {
             assert(status_state_obj.abs() == step(a1, read_ok(w, proxyagent_file_version_in_extension@)));  // @C20.monitor_thread.exactly_one_step_per_probe
+            assert(status.status@ == st_text(run(init_abs(), h).st));  // @C20.monitor_thread.publishes_automaton_output_for_the_whole_history
+            lemma_history(h);
+            assert(status.status@ == constants::ERROR_STATUS@ ==> trailing_fail(h) >= 20 && !h.last());  // @C20.monitor_thread.error_only_after_20_consecutive_failures
+            assert(h.last() ==> status.status@ != constants::ERROR_STATUS@);  // @C20.monitor_thread.never_error_directly_after_a_success
+            if h.len() >= 2 && h.last() && h[h.len() - 2] {
+                let h0 = h.drop_last().drop_last();
+                assert(h0.push(true).push(true) =~= h);
+                lemma_success_leaves_error(h0);
+            }
+            assert(h.len() >= 2 && h.last() && h[h.len() - 2] ==> status.status@ == constants::SUCCESS_STATUS@);  // @C20.monitor_thread.two_consecutive_successes_publish_success
         }""")])
